@@ -223,13 +223,14 @@ def _explore(out, tier, seed, facts, replay, tmp):
             jobs.add(("full", n, ax, rng.choice(["plot", "text", "csv"]), ("-r", "2")))
     # every name with every bin type (one and three thresholds), every aggregator name, and one / three input files
     for n in names:
+        diagram = n in os_ and n not in ms          # a diagram class: only its plot exists, so that is the type to run
         for v in bin_variants:
-            jobs.add(("full", n, None, rng.choice(["plot", "text", "csv"]), v))
+            jobs.add(("full", n, None, "plot" if diagram else rng.choice(["plot", "text", "csv"]), v))
         for v in agg_variants:
-            jobs.add(("full", n, None, rng.choice(["plot", "text", "csv"]), v + (("-r", "2") if rng.random() < 0.5 else ())))
+            jobs.add(("full", n, None, "plot" if diagram else rng.choice(["plot", "text", "csv"]), v + (("-r", "2") if rng.random() < 0.5 else ())))
         for ty in TYPES:
             for nf in (1, 3):
-                jobs.add((rng.choice(["full", "miss", "oneloc"]), n, None, ty, (), nf))
+                jobs.add((rng.choice(["full", "miss", "oneloc", "single"]), n, None, ty, (), nf))
     if tier == "thorough" or broken:
         for n in names:
             for ty in TYPES:
